@@ -72,7 +72,9 @@ type Item struct {
 	// Cond, for *ssa.If items, is the branch condition as it is on this path: a condition that was
 	// materialised into a boolean variable (`trip := a >= b; …; if trip`) is resolved through the φ
 	// to the comparison the path actually came through.
-	Cond ssa.Value
+	Cond      ssa.Value
+	CondFrame *Frame // the frame Cond is to be described in (the callee's, when it is a helper's result)
+	CondNeg   bool   // Cond is the negation of the branch condition (`if !helper()`)
 }
 
 type Trace struct {
@@ -177,8 +179,14 @@ type walkState struct {
 	cells    map[*ssa.Alloc]AbsVal // abstract contents of local variable cells (spilled results)
 	facts    map[string]factVal    // what earlier branches/stores established about memory locations
 	phiSel   map[*ssa.Phi]ssa.Value // which operand each φ took the last time the path entered its block
+	callRet  map[*ssa.Call]retSel    // for an inlined single-result helper: the value its taken return yields
 	panicing bool
 	recov    bool
+}
+
+type retSel struct {
+	v  ssa.Value
+	fr *Frame
 }
 
 func (w *walkState) clone() *walkState {
@@ -194,6 +202,10 @@ func (w *walkState) clone() *walkState {
 	n.phiSel = make(map[*ssa.Phi]ssa.Value, len(w.phiSel))
 	for k, v := range w.phiSel {
 		n.phiSel[k] = v
+	}
+	n.callRet = make(map[*ssa.Call]retSel, len(w.callRet))
+	for k, v := range w.callRet {
+		n.callRet[k] = v
 	}
 	n.facts = make(map[string]factVal, len(w.facts))
 	for k, v := range w.facts {
@@ -428,22 +440,40 @@ func (s *Spec) note(fr *Frame, in ssa.Instruction, st *walkState) {
 
 func (s *Spec) doIf(fr *Frame, b *ssa.BasicBlock, x *ssa.If, st *walkState, emit func(*Trace)) {
 	cond := x.Cond
-	for i := 0; i < 4; i++ {
-		ph, isPhi := cond.(*ssa.Phi)
-		if !isPhi {
-			break
+	condFrame, condNeg := fr, false
+	for i := 0; i < 6; i++ {
+		if u, isNot := cond.(*ssa.UnOp); isNot && u.Op == token.NOT {
+			if _, isCall := u.X.(*ssa.Call); isCall {
+				cond, condNeg = u.X, !condNeg
+				continue
+			}
 		}
-		sel, ok := st.phiSel[ph]
-		if !ok {
-			break
+		if ph, isPhi := cond.(*ssa.Phi); isPhi && condFrame == fr {
+			if sel, ok := st.phiSel[ph]; ok {
+				cond = sel
+				continue
+			}
 		}
-		cond = sel
+		if call, isCall := cond.(*ssa.Call); isCall && condFrame == fr {
+			// the result of a helper that was inlined on this path: the value its taken return yields
+			if rs, ok := st.callRet[call]; ok {
+				if _, stillConst := rs.v.(*ssa.Const); !stillConst {
+					cond, condFrame = rs.v, rs.fr
+					continue
+				}
+			}
+		}
+		break
 	}
-	a := s.abs(cond, st)
-	if a.K == AUnknown {
-		a = s.abs(x.Cond, st)
+	a := s.abs(x.Cond, st)
+	if a.K == AUnknown && condFrame == fr && !condNeg {
+		a = s.abs(cond, st)
 	}
-	fk, fkOK := s.factKey(cond, fr)
+	factCond := x.Cond
+	if condFrame == fr && !condNeg {
+		factCond = cond
+	}
+	fk, fkOK := s.factKey(factCond, fr)
 	if a.K == AUnknown && fkOK {
 		if v, ok := fk.lookup(st.facts); ok {
 			if v {
@@ -459,13 +489,13 @@ func (s *Spec) doIf(fr *Frame, b *ssa.BasicBlock, x *ssa.If, st *walkState, emit
 		}
 		w.decided[x.Cond] = pol
 		// propagate the decision to the operands (x == nil, !x, …) so later tests agree
-		s.assume(cond, pol, w)
+		s.assume(factCond, pol, w)
 		if fkOK {
 			fk.record(w.facts, pol)
 		}
 		if s.Cond != nil {
 			if l := s.Cond(x, fr); l != "" {
-				w.items = append(w.items, Item{Label: l, Instr: x, Pol: pol, Frame: fr, Cond: cond})
+				w.items = append(w.items, Item{Label: l, Instr: x, Pol: pol, Frame: fr, Cond: cond, CondFrame: condFrame, CondNeg: condNeg})
 			}
 		}
 		succ := b.Succs[0]
@@ -735,6 +765,12 @@ func (s *Spec) doCall(fr *Frame, x *ssa.Call, st *walkState, cont func(*walkStat
 			}
 			if len(t.Ret) == 1 {
 				w.env[x] = t.Ret[0]
+				if r, isRet := t.RetInstr.(*ssa.Return); isRet && len(r.Results) == 1 {
+					if w.callRet == nil {
+						w.callRet = map[*ssa.Call]retSel{}
+					}
+					w.callRet[x] = retSel{v: r.Results[0], fr: sub}
+				}
 			} else if len(t.Ret) > 1 {
 				w.tuple[x] = t.Ret
 			}
